@@ -21,6 +21,80 @@ type strEval struct {
 	fn    *Fn
 	info  *types.Info
 	param types.Object
+	bools map[types.Object]bool // comma-ok results of set lookups, per evaluation
+}
+
+// setOf: the string keys of a package-level map variable initialised by a composite literal
+// (`var counterFuncs = map[string]struct{}{"rate": {}, …}`), with the value of each key for map[string]bool.
+func (x *strEval) setOf(e ast.Expr) (map[string]bool, bool) {
+	id, ok := unparen(e).(*ast.Ident)
+	if !ok {
+		return nil, false
+	}
+	v, ok := x.info.Uses[id].(*types.Var)
+	if !ok || v.Parent() == nil || v.Parent().Parent() != types.Universe {
+		return nil, false
+	}
+	var lit *ast.CompositeLit
+	for _, f := range x.fn.Pkg.Syntax {
+		for _, d := range f.Decls {
+			gd, ok := d.(*ast.GenDecl)
+			if !ok {
+				continue
+			}
+			for _, sp := range gd.Specs {
+				vs, ok := sp.(*ast.ValueSpec)
+				if !ok {
+					continue
+				}
+				for i, nm := range vs.Names {
+					if x.info.Defs[nm] == v && i < len(vs.Values) {
+						lit, _ = unparen(vs.Values[i]).(*ast.CompositeLit)
+					}
+				}
+			}
+		}
+	}
+	if lit == nil {
+		return nil, false
+	}
+	// the variable must not be written anywhere else in the package
+	for _, f := range x.fn.Pkg.Syntax {
+		written := false
+		ast.Inspect(f, func(n ast.Node) bool {
+			if as, ok := n.(*ast.AssignStmt); ok {
+				for _, l := range as.Lhs {
+					if ix, ok := unparen(l).(*ast.IndexExpr); ok && objOf(x.info, ix.X) == v {
+						written = true
+					}
+					if objOf(x.info, l) == v {
+						written = true
+					}
+				}
+			}
+			return true
+		})
+		if written {
+			return nil, false
+		}
+	}
+	out := map[string]bool{}
+	for _, el := range lit.Elts {
+		kv, ok := el.(*ast.KeyValueExpr)
+		if !ok {
+			return nil, false
+		}
+		tv, ok := x.info.Types[kv.Key]
+		if !ok || tv.Value == nil || tv.Value.Kind() != constant.String {
+			return nil, false
+		}
+		val := true
+		if vt, ok := x.info.Types[kv.Value]; ok && vt.Value != nil && vt.Value.Kind() == constant.Bool {
+			val = constant.BoolVal(vt.Value)
+		}
+		out[constant.StringVal(tv.Value)] = val
+	}
+	return out, true
 }
 
 func newStrEval(p *Prog, fn *Fn) (*strEval, error) {
@@ -50,6 +124,16 @@ func (x *strEval) literals() []string {
 		}
 		return true
 	})
+	ast.Inspect(x.fn.Body(), func(n ast.Node) bool {
+		if ix, ok := n.(*ast.IndexExpr); ok {
+			if m, ok := x.setOf(ix.X); ok {
+				for k := range m {
+					set[k] = true
+				}
+			}
+		}
+		return true
+	})
 	var out []string
 	for s := range set {
 		out = append(out, s)
@@ -75,6 +159,18 @@ func (x *strEval) cond(e ast.Expr, s string) (bool, error) {
 		return constant.BoolVal(tv.Value), nil
 	}
 	switch v := e.(type) {
+	case *ast.Ident:
+		if b, ok := x.bools[objOf(x.info, v)]; ok {
+			return b, nil
+		}
+	case *ast.IndexExpr:
+		if m, ok := x.setOf(v.X); ok {
+			k, err := x.str(v.Index, s)
+			if err != nil {
+				return false, err
+			}
+			return m[k], nil
+		}
 	case *ast.UnaryExpr:
 		if v.Op == token.NOT {
 			b, err := x.cond(v.X, s)
@@ -140,9 +236,19 @@ func (x *strEval) run(list []ast.Stmt, s string) (string, bool, error) {
 				return fmt.Sprint(b), true, err
 			}
 			return stmtText(x.p, v.Results[0]), true, nil
+		case *ast.AssignStmt:
+			if err := x.bindLookup(v, s); err != nil {
+				return "", false, err
+			}
 		case *ast.IfStmt:
 			if v.Init != nil {
-				return "", false, fmt.Errorf("%s: unsupported if-init", x.p.Pos(v.Pos()))
+				as, ok := v.Init.(*ast.AssignStmt)
+				if !ok {
+					return "", false, fmt.Errorf("%s: unsupported if-init", x.p.Pos(v.Pos()))
+				}
+				if err := x.bindLookup(as, s); err != nil {
+					return "", false, err
+				}
 			}
 			c, err := x.cond(v.Cond, s)
 			if err != nil {
@@ -224,7 +330,31 @@ func (x *strEval) run(list []ast.Stmt, s string) (string, bool, error) {
 	return "", false, nil
 }
 
+// bindLookup handles `_, ok := set[f]` / `v, ok := set[f]`.
+func (x *strEval) bindLookup(as *ast.AssignStmt, s string) error {
+	if len(as.Lhs) == 2 && len(as.Rhs) == 1 {
+		if ix, ok := unparen(as.Rhs[0]).(*ast.IndexExpr); ok {
+			if m, ok := x.setOf(ix.X); ok {
+				k, err := x.str(ix.Index, s)
+				if err != nil {
+					return err
+				}
+				_, present := m[k]
+				if o := objOf(x.info, as.Lhs[1]); o != nil {
+					x.bools[o] = present
+				}
+				if o := objOf(x.info, as.Lhs[0]); o != nil {
+					x.bools[o] = m[k]
+				}
+				return nil
+			}
+		}
+	}
+	return fmt.Errorf("%s: unsupported statement `%s` in a string classifier", x.p.Pos(as.Pos()), stmtText(x.p, as))
+}
+
 func (x *strEval) Eval(s string) (string, error) {
+	x.bools = map[types.Object]bool{}
 	r, done, err := x.run(x.fn.Body().List, s)
 	if err != nil {
 		return "", err
